@@ -177,6 +177,22 @@ func (ex *Exec) execInstr(b *ssa.BasicBlock, st *State, in ssa.Instruction) {
 		for _, r := range in.Results {
 			rs = append(rs, ex.val(st, r))
 		}
+		if ex.con != nil {
+			for i, cl := range ex.con.AtReturn {
+				env := ex.specEnv(st, ex.entry, false)
+				env.bindResults(ex.fn, rs)
+				t, err := env.evalBool(cl.Expr)
+				if err != nil {
+					ex.fail("atreturn %q: %v", cl.Src, err)
+					continue
+				}
+				label := cl.Label
+				if label == "" {
+					label = fmt.Sprintf("%d", i+1)
+				}
+				ex.vc.oblige("assert", fmt.Sprintf("assert:%s@return#%s", ex.conName(), label), st.guard, t, ex.pos(in.Pos())).SetNote(cl.Src)
+			}
+		}
 		ex.rets = append(ex.rets, retInfo{st.clone(), rs})
 		st.dead = true
 	case *ssa.Panic:
@@ -300,7 +316,7 @@ func (ex *Exec) binop(st *State, op token.Token, x, y T, xt types.Type, rt types
 		return ex.wrapUnsigned(st, Mul(x, y), rt)
 	case token.QUO:
 		if x.sort == SReal {
-			return mk(SReal, "/", x, y)
+			return ex.realDiv(x, y)
 		}
 		ex.safeOblige(st, "div-zero", Not(Eq(y, IntLit(0))))
 		return mk(SInt, "go.div", x, y)
@@ -715,4 +731,27 @@ func (ex *Exec) untouchedBound(st *State, l Loc) (T, bool) {
 	}
 	b, ok := ex.epochAlloc[st.epoch]
 	return b, ok
+}
+
+// realDiv: division by a literal stays arithmetic; division by a symbolic divisor is an uninterpreted function
+// (keeps the obligations linear; the only fact lost is the field axiom, which no contract here needs).
+func (ex *Exec) realDiv(x, y T) T {
+	if isNumLit(y.s) {
+		return mk(SReal, "/", x, y)
+	}
+	ex.vc.ufun("real.div", []Sort{SReal, SReal}, SReal)
+	return mk(SReal, "real.div", x, y)
+}
+
+func isNumLit(s string) bool {
+	s = strings.TrimSuffix(strings.TrimPrefix(s, "(- "), ")")
+	if s == "" {
+		return false
+	}
+	for _, r := range s {
+		if !(r >= '0' && r <= '9' || r == '.') {
+			return false
+		}
+	}
+	return true
 }
